@@ -151,19 +151,37 @@ def stepSourceOp (d : DState) (op : String) (toks impl : List String) : Option (
       let i ← d.getSrc id
       let m := renderOpt (srcModelAnswer i o)
       let s := renderOpt (srcSpecAnswer i o)
-      let clause := if o == "pull" then "C10.iterator-analogue" else if o == "peek" then "C10.peek" else "C20.source-cache"
       let ended := (srcSpecAnswer i o).isNone
-      let d := if o == "cached" then d else d.putSrc id { i with log := i.log ++ [o] }
+      let d := if o == "cached" then d else
+        d.putSrc id { i with log := i.log ++ [o], lastImpl := if o == "pull" then some implS else i.lastImpl }
       let d := if ended then d.flag "src.ended" else d
-      some (report d op { model := m, impl := implS, kind := i.top,
-                          clauses := [{ name := clause, ok := s == implS, expected := s }] })
+      -- C10: against the iterator analogue. C20 (the cache wrapper remembers the most recent item): against what the
+      -- implementation itself answered to the last pull - a defect of the wrapped source is C10's business
+      let clauses : List Clause :=
+        if o == "pull" then [{ name := "C10.iterator-analogue", ok := s == implS, expected := s }]
+        else if o == "peek" then [{ name := "C10.peek", ok := s == implS, expected := s }]
+        else
+          let e := i.lastImpl.getD "none"
+          [{ name := "C10.cache-slot", ok := s == implS, expected := s },
+           { name := "C20.source-cache", ok := e == implS, expected := e }]
+      some (report d op { model := m, impl := implS, kind := i.top, clauses := clauses })
     else none
+  | ["ssame", a, b, clause] => do
+    -- two sources pulled in lockstep (a wrapper and the bare source): their most recent answers agree
+    let ia ← d.getSrc (← a.toNat?)
+    let ib ← d.getSrc (← b.toNat?)
+    let (ea, eb) := (ia.lastImpl.getD "-", ib.lastImpl.getD "-")
+    some (report d op { model := "ok", impl := implS, kind := ia.top,
+                        clauses := [{ name := clause, ok := ea == eb, expected := eb }] })
   | _ => none
 
 /-! ### sinks -/
 
 /-- `sink_min_f64` etc.: the same sink at `f64` (partial order: NaN) -/
 def baseSinkKind (kind : String) : String :=
+  -- the harness's own sinks (last stage of the C01 pipes): a collecting and a summing one
+  if kind == "own_collect" then "sink_collect" else
+  if kind == "own_sum" then "sink_unit_sum" else
   if kind.endsWith "_f64" then String.ofList (kind.toList.take (kind.length - 4)) else kind
 
 def mkSink (kind : String) : Option (Sk V) :=
